@@ -164,6 +164,9 @@ func (e *Engine) discharge(ob *Obligation, idx int) {
 	if ob.Status == "failed" && ob.Kind == "frame" {
 		return
 	}
+	if ob.Kind == "layout" {
+		return // decided structurally
+	}
 	goal := implies(ob.Guard, ob.Cond)
 	if goal == "true" || ob.Cond == "true" {
 		ob.Status = "trivial"
